@@ -54,14 +54,21 @@ RULE = ('Hypothesis-generated known_hosts / authorized_keys text over a fixed '
         '[host]:port forms, HMAC-SHA1 hashed names with generated salts, '
         'markers, comments/blank lines and 9 kinds of damaged key field; '
         'option strings with quotes, \\", commas and spaces inside quotes and '
-        'repeated options. Non-trivial = at least one line is selected and at '
-        'least one line is negated, hashed, damaged or (authorized_keys) '
-        'rejected by an option; distinct = canonical JSON of the case.')
+        'repeated options; each file is looked up for its main query and up '
+        'to 3 related ones. Non-trivial = at least one line is selected by '
+        'the main query and at least one line is negated, hashed or damaged '
+        '(known_hosts) / damaged or carrying an evaluated from= or '
+        'principals= option (authorized_keys); distinct = canonical JSON of '
+        'the case.')
 ASSUMPTIONS = [
-    'sshd(8)/ssh_config(5) text of OpenSSH 9.2 as transcribed in the module '
-    'docstrings of the reference matchers',
+    'sshd(8) AUTHORIZED_KEYS / SSH_KNOWN_HOSTS FILE FORMAT as quoted in the '
+    'comments above the reference matchers (sshd(8) is not installed here: '
+    'quoted from the OpenSSH 9.x manual; ssh_config(5) PATTERNS and the '
+    'identical "option keywords are case-insensitive" sentence of '
+    'ssh-keygen(1) ALLOWED SIGNERS were read from the local man pages)',
     'ssh-keygen -F of the installed OpenSSH 9.2 implements those rules on '
-    'the sub-domain it is used on',
+    'the sub-domain it is used on (names only, no CIDR, 20-byte salts, '
+    'space-separated fields)',
     'asyncssh.import_public_key is correct for the 9 undamaged universe keys '
     '(used only to build the SSHKey passed to validate)',
     'cryptography derives the fixed universe keys (key bytes never enter an '
@@ -1841,7 +1848,7 @@ _DMG_KINDS = ['dmg:' + k for k in ('b64sub', 'b64drop', 'trunc', 'extend',
 
 FAMILIES = [
     Family('kh_reference', run_kh_reference, strategy=kh_reference_strategy,
-           budget={'quick': 4000, 'thorough': 60000},
+           budget={'quick': 6000, 'thorough': 100000},
            required={'all': ['selected', 'none-selected', 'neg-excluded',
                              'hashed-hit', 'exact-hit', 'wild-hit',
                              'numeric-hit', 'bracket-hit', 'addr-only-hit',
@@ -1855,11 +1862,11 @@ FAMILIES = [
                              'port-fallback', 'damaged']}),
     Family('kh_metamorphic', run_kh_metamorphic,
            strategy=kh_metamorphic_strategy,
-           budget={'quick': 2000, 'thorough': 25000},
+           budget={'quick': 3000, 'thorough': 40000},
            required={'all': ['op:insert', 'op:perm', 'op:negate',
                              'negate-removes-selected', 'selected']}),
     Family('ak_reference', run_ak_reference, strategy=ak_reference_strategy,
-           budget={'quick': 4000, 'thorough': 60000},
+           budget={'quick': 6000, 'thorough': 100000},
            required={'all': ['accepted', 'rejected', 'from-match',
                              'from-reject', 'principals-match',
                              'principals-reject', 'multi-from',
